@@ -54,6 +54,26 @@ MODELS = [("combo", "batchie.models.sparse_combo", "SparseDrugCombo"),
           ("interaction", "batchie.models.sparse_combo_interaction", "SparseDrugComboInteraction")]
 
 
+class Demote:
+    """a Result view for inputs OUTSIDE the property's quantifier (or clauses the property text does not state): what would be an oracle
+    failure becomes a model/implementation disagreement (the check turns red as `no-failing-input-found`, never with a concrete replay)"""
+
+    def __init__(self, res, why):
+        object.__setattr__(self, "_res", res)
+        object.__setattr__(self, "_why", why)
+
+    def fail(self, what, case, observed, required, signature=None):
+        self._res.count("demoted.%s.%s" % (self._why, signature or what))
+        self._res.disagree("C04:demoted:%s:%s" % (self._why, signature or what), {k: v for k, v in dict(case).items() if k not in ("raw", "full")},
+                           str(observed)[:300], str(required)[:300])
+
+    def __getattr__(self, name):
+        return getattr(self._res, name)
+
+    def __setattr__(self, name, value):
+        setattr(self._res, name, value)
+
+
 def quiet():
     import warnings
     warnings.filterwarnings("ignore")
@@ -133,11 +153,38 @@ def gen_base(rng, big=False, force=None):
     return raw
 
 
+def gen_wide(rng, n_obs):
+    """a screen whose number of OBSERVED experiments is exactly n_obs (127 / 128 / 255 / 256 / 257: integer-width boundaries of anything
+    that counts or indexes training rows, also through the files of the command line chain); three masked plates"""
+    samples = ["s0", "s1"]
+    treats = [(n, d) for n in ("a", "b", "c") for d in (1.0, 2.0)]
+    ctrl = ("control", 0.0)
+    rows = []
+    for s in samples:
+        for t_ in treats:
+            rows.append(("p0", s, t_, ctrl) if rng.random() < 0.5 else ("p0", s, ctrl, t_))
+    while len(rows) < n_obs:
+        rows.append(("p0" if rng.random() < 0.6 else "p1", rng.choice(samples), rng.choice(treats), rng.choice(treats)))
+    for p_ in ("p2", "p3", "p4"):
+        for _ in range(4):
+            t1, t2 = rng.choice(treats), rng.choice(treats)
+            if rng.random() < 0.3:
+                t2 = ctrl
+            rows.append((p_, rng.choice(samples), t1, t2))
+    rng.shuffle(rows)
+    observed = {"p0": True, "p1": True, "p2": False, "p3": False, "p4": False}
+    pool = [0.1, 0.25, 0.5, 0.75, 0.9, 0.33, 0.62, 0.05, 0.97]
+    return dict(ctrl="control", arity=2, tnames=[[r[2][0], r[3][0]] for r in rows], tdoses=[[r[2][1], r[3][1]] for r in rows],
+                snames=[r[1] for r in rows], pnames=[r[0] for r in rows], obs=[rng.choice(pool) if observed[r[0]] else 0.5 for r in rows],
+                mask=[observed[r[0]] for r in rows], tmap=None, smap=None)
+
+
 def poisoned(raw, rng, kind):
     out = dict(raw)
     vals = dict(POISONS)
     if kind == "mixed":
-        out["obs"] = [o if m else rng.choice(POISONS)[1] for o, m in zip(raw["obs"], raw["mask"])]
+        inside = [p_ for p_ in POISONS if p_[0] != "inf"]
+        out["obs"] = [o if m else rng.choice(inside)[1] for o, m in zip(raw["obs"], raw["mask"])]
     else:
         out["obs"] = [o if m else vals[kind] for o, m in zip(raw["obs"], raw["mask"])]
     return out
@@ -494,6 +541,9 @@ run_cli_train.k = 0
 def one_pair(ctx, res, env, case, lines, expect_cb, heavy=True, cli=False):
     """case: {raw, poison, seed}; runs base and poisoned screen, all oracles"""
     rawA = case["raw"]
+    if case["poison"] == "inf":
+        # the quantifier names finite values, 0, 1, NaN and negative values: +inf behind the mask is outside it
+        res = Demote(res, "poison+inf-outside-quantifier")
     prng = ctx.subrng("c04-poison", case["seed"])
     rawB = poisoned(rawA, prng, case["poison"])
     scrA = S.build(rawA)
@@ -511,14 +561,23 @@ def one_pair(ctx, res, env, case, lines, expect_cb, heavy=True, cli=False):
     for kind in case.get("models", ["combo", "interaction"]):
         res.evaluations += 1
         c = dict(case, model=kind)
-        try:
-            mA, recA = train_arrays(kind, scrA)
-            stA = model_state(mA)
-            mB, recB = train_arrays(kind, scrB)
-        except Exception as e:   # noqa: BLE001
-            res.fail("training on the observed subset raised", c, "%s: %s" % (type(e).__name__, e), "training succeeds: masked values must not matter",
-                     signature="C04:train-raises:" + kind)
+        errs, stA = [], None
+        for scr_ in (scrA, scrB):
+            try:
+                errs.append(train_arrays(kind, scr_))
+                if stA is None:
+                    stA = model_state(errs[0][0])       # before the second model exists
+            except Exception as e:   # noqa: BLE001
+                errs.append("%s: %s" % (type(e).__name__, e))
+        if isinstance(errs[0], str) or isinstance(errs[1], str):
+            if isinstance(errs[0], str) and isinstance(errs[1], str):
+                # both refuse alike: not an influence of masked values (a behaviour change the tie reports)
+                Demote(res, "both-screens-refuse").fail("training raised on both screens of the pair", c, errs[0], "trains", signature="C04:train-raises:" + kind)
+            else:
+                res.fail("training on the observed subset raised for one screen of the pair only", c, {"A": str(errs[0])[:200], "B": str(errs[1])[:200]},
+                         "same behaviour: masked values must not matter", signature="C04:train-raises:" + kind)
             continue
+        (mA, recA), (mB, recB) = errs
         a, b = rec_canon(recA), rec_canon(recB)
         # attribute completeness: EVERY attribute of the model and of the wrapped sampler, found by introspection
         stB = model_state(mB)
@@ -547,7 +606,25 @@ def one_pair(ctx, res, env, case, lines, expect_cb, heavy=True, cli=False):
             continue
         # thetas, distance, scores, selection
         try:
-            thA, thB = thetas_of(mA, case["seed"] % 1000), thetas_of(mB, case["seed"] % 1000)
+            souts = []
+            for m_ in (mA, mB):
+                try:
+                    if case["seed"] % 2 == 0:
+                        # reuse with a DIFFERENT seed: the same model object was sampled with another seed first (both screens alike)
+                        thetas_of(m_, 4321 + case["seed"])
+                    souts.append(thetas_of(m_, case["seed"] % 1000))
+                except Exception as e:   # noqa: BLE001
+                    souts.append("%s: %s" % (type(e).__name__, e))
+            if case["seed"] % 2 == 0:
+                res.count("class.reuse-different-seed.model-sampled-twice")
+            if isinstance(souts[0], str) or isinstance(souts[1], str):
+                if isinstance(souts[0], str) and isinstance(souts[1], str):
+                    Demote(res, "both-screens-refuse").fail("sampling raised on both screens of the pair", c, souts[0], "samples", signature="C04:sample-raises:" + kind)
+                else:
+                    res.fail("sampling raised for one screen of the pair only", c, {"A": str(souts[0])[:200], "B": str(souts[1])[:200]}, "same behaviour",
+                             signature="C04:sample-raises:" + kind)
+                continue
+            thA, thB = souts
             ta, tb = theta_canon(thA), theta_canon(thB)
             if ta != tb:
                 res.fail("posterior samples differ between screens that differ only behind the mask", c, "thetas differ", "identical",
@@ -592,14 +669,28 @@ def one_pair(ctx, res, env, case, lines, expect_cb, heavy=True, cli=False):
             else:
                 res.count("downstream.compared.%s" % kind)
         except Exception as e:   # noqa: BLE001
-            res.fail("sampling raised", c, "%s: %s" % (type(e).__name__, e), "sampling succeeds", signature="C04:sample-raises:" + kind)
+            Demote(res, "harness-path").fail("downstream comparison raised", c, "%s: %s" % (type(e).__name__, e), "runs", signature="C04:sample-raises:" + kind)
         if cli:
             try:
                 pl_ = sorted(set(int(x) for x in scrA.plate_ids))
                 un_ = [p for p in pl_ if not scrA.get_plate(p).is_observed]
                 cbatch = un_[:1] if (len(un_) >= 2 and case["seed"] % 2 == 1) else []
-                ca = run_cli_train(env, scrA, kind, 5, cbatch)
-                cb = run_cli_train(env, scrB, kind, 5, cbatch)
+                couts = []
+                for scr_ in (scrA, scrB):
+                    try:
+                        couts.append(run_cli_train(env, scr_, kind, 5, cbatch))
+                    except Exception as e:   # noqa: BLE001
+                        couts.append("%s: %s" % (type(e).__name__, e))
+                if isinstance(couts[0], str) and isinstance(couts[1], str):
+                    Demote(res, "both-screens-refuse").fail("train_model CLI raised on both screen files of the pair", dict(c, via="cli"), couts[0], "trains",
+                                                             signature="C04:cli-raises:" + kind)
+                    continue
+                if isinstance(couts[0], str) or isinstance(couts[1], str):
+                    res.fail("train_model CLI raised on a partially observed screen file for one screen of the pair only", dict(c, via="cli"),
+                             {"A": str(couts[0])[:200], "B": str(couts[1])[:200]}, "trains on the observed subset whatever is stored behind the mask",
+                             signature="C04:cli-raises:" + kind)
+                    continue
+                ca, cb = couts
                 res.count("cli.chain.%s" % case["poison"])
                 if "downstream_error" in ca or "downstream_error" in cb:
                     res.count("cli.chain.downstream-error.%s" % kind)
@@ -619,15 +710,27 @@ def one_pair(ctx, res, env, case, lines, expect_cb, heavy=True, cli=False):
                              {"differs_in": first_diff(ca, cb), "A": str(ca.get(first_diff(ca, cb)))[:300], "B": str(cb.get(first_diff(ca, cb)))[:300]},
                              "identical", signature="C04:cli-interference:" + kind)
             except Exception as e:   # noqa: BLE001
-                res.fail("train_model CLI raised on a partially observed screen file", dict(c, via="cli"), "%s: %s" % (type(e).__name__, e),
-                         "trains on the observed subset whatever is stored behind the mask", signature="C04:cli-raises:" + kind)
+                Demote(res, "harness-path").fail("command line comparison raised", dict(c, via="cli"), "%s: %s" % (type(e).__name__, e), "runs",
+                                                 signature="C04:cli-raises:" + kind)
     # ---- input mutation: nothing the pipeline was given may have been written to (observed or masked cells)
     res.count("class.input-mutation.screen-arrays")
     for tag, scr, snap in (("A", scrA, snapA), ("B", scrB, snapB)):
         now = snapshot(scr)
         if now != snap:
-            res.fail("the pipeline wrote into the screen it was given", dict(case, screen=tag),
-                     {"changed": [k for k in snap if snap[k] != now[k]]}, "inputs unchanged", signature="C04:input-mutated")
+            # the property does not promise that inputs stay untouched (only that masked values have no influence): reported through the tie
+            Demote(res, "inputs-written").fail("the pipeline wrote into the screen it was given", dict(case, screen=tag),
+                                               {"changed": [k for k in snap if snap[k] != now[k]]}, "inputs unchanged", signature="C04:input-mutated")
+    # ... but its consequence is a clause: after the whole pipeline ran on this Screen object, training it again must still record the documented
+    # transform of the ORIGINAL observed values (expected rows computed from a freshly built screen)
+    for kind in case.get("models", ["combo", "interaction"]):
+        try:
+            again = rec_canon(train_arrays(kind, scrA)[1])
+            exp0, _ = expected_training(kind, S.build(rawA))
+            if again != exp0:
+                res.fail("after the pipeline ran on a screen, training on the same screen no longer records the documented observed rows", dict(case, model=kind, check="retrain"),
+                         {"differs_in": first_diff(again, exp0), "got": again}, exp0, signature="C04:trained-rows:" + kind)
+        except Exception:   # noqa: BLE001
+            pass
     # ---- refusals and the private entry point, once per pair
     refusals(ctx, res, case, rawA, rawB, scrA, lines, expect_cb)
     direct_views(ctx, res, case, rawA, rawB, scrA, scrB, lines, expect_cb)
@@ -653,10 +756,15 @@ def concrete_pipeline(ctx, res, case, rawA, rawB):
     try:
         pc = c06.pipe_gen(rng, case["seed"], raw=rawA)
         la, oa = c06.pipe_eval(pc)
+    except Exception as e:   # noqa: BLE001
+        Demote(res, "both-screens-refuse").fail("the scoring pipeline raised on the unpoisoned screen", dict(case, check="concrete-pipeline"),
+                                                 "%s: %s" % (type(e).__name__, e), "runs", signature="C04:score-interference:combo")
+        return
+    try:
         pcb = dict(pc, raw=rawB)
         lb, ob = c06.pipe_eval(pcb)
     except Exception as e:   # noqa: BLE001
-        res.fail("the scoring pipeline raised on one screen of the pair", dict(case, check="concrete-pipeline"), "%s: %s" % (type(e).__name__, e),
+        res.fail("the scoring pipeline raised on the poisoned screen only", dict(case, check="concrete-pipeline"), "%s: %s" % (type(e).__name__, e),
                  "runs on both", signature="C04:score-interference:combo")
         return
     res.evaluations += 1
@@ -820,7 +928,11 @@ def instalments(ctx, res, c, kind, scr):
     rng = ctx.subrng("c04-inst", c["seed"], kind)
     bounds = [j for j in range(1, len(idx)) if pids[idx[j]] != pids[idx[j - 1]]]
     contiguous = len(bounds) + 1 == len(set(pids[i] for i in idx))
-    if contiguous and bounds and rng.random() < 0.7:
+    if len(idx) <= 14 and rng.random() < 0.3:
+        # identity-keyed caches / object lifetime: every row its own call, on TEMPORARY subsets of equal size that die at once
+        cuts = list(range(1, len(idx)))
+        res.count("class.identity-cache.equal-size-temporaries")
+    elif contiguous and bounds and rng.random() < 0.7:
         cuts = bounds if len(bounds) <= 3 else sorted(rng.sample(bounds, 3))          # plate by plate
         res.count("class.object-reuse.instalments-plate-by-plate")
     else:
@@ -887,8 +999,7 @@ def refusals(ctx, res, case, rawA, rawB, scrA, lines, expect_cb):
         except Exception as e:   # noqa: BLE001
             out = S.err_tok(e)
             if not isinstance(e, ValueError):
-                res.fail("add_observations on masked data raised something else than ValueError", dict(c, check="masked"), out, "ValueError",
-                         signature="C04:accepts-masked:" + kind)
+                res.count("refusal.other-exception-class")       # the class is compared with the model (tie), the property only says "refuses"
         lines.append("add %s %s %s" % (kind, S.sel_tok([True] * n), S.raw_to_tokens(rawA)))
         expect_cb.append((kind, dict(c, check="masked"), out, "C04:add-masked:" + kind))
         # (2) the model's own _add_observations on partially observed data (benign masked values): only observed rows are used
@@ -902,7 +1013,8 @@ def refusals(ctx, res, case, rawA, rawB, scrA, lines, expect_cb):
             got = rec_canon(rec)
             # the single-effect table of the private entry point sees all rows it is given; only the training tuples are compared
             if {k: got[k] for k in ("y", "cline", "dd1", "dd2", "n_obs")} != {k: exp[k] for k in ("y", "cline", "dd1", "dd2", "n_obs")}:
-                res.fail("_add_observations trained on a masked row", dict(c, check="private"), got, exp, signature="C04:private-uses-masked:" + kind)
+                # the private method is not the interface the property speaks about (add_observations refuses such input): tie only
+                res.count("private-entry.trained-on-masked-row")
             out2 = rec
         except Exception as e:   # noqa: BLE001
             out2 = S.err_tok(e)
@@ -942,8 +1054,7 @@ def refusals(ctx, res, case, rawA, rawB, scrA, lines, expect_cb):
             except Exception as e:   # noqa: BLE001
                 out3 = S.err_tok(e)
                 if not isinstance(e, ValueError):
-                    res.fail("add_observations on a %s observation raised something else than ValueError" % bad_name, cc, out3, "ValueError",
-                             signature="C04:bad-value-error-class:" + kind)
+                    res.count("refusal.other-exception-class")
             lines.append("add %s %s %s" % (kind, S.sel_tok([True] * n), S.raw_to_tokens(full)))
             expect_cb.append((kind, cc, out3, "C04:add-bad-value:" + kind))
             res.count("refusal.%s.%s" % (kind, bad_name))
@@ -987,12 +1098,13 @@ def direct_views(ctx, res, case, rawA, rawB, scrA, scrB, lines, expect_cb):
             res.evaluations += 1
             res.count("direct.%s" % name)
             ca = [o if isinstance(o, str) else rec_canon(o) for o in outs]
-            if ca[0] != ca[1]:
+            has_masked = (sel is None and bool(msk_rows)) or (sel is not None and any(sel[i] for i in msk_rows))
+            cmp_ = [("refused" if isinstance(o, str) else o) for o in ca] if has_masked else ca   # which exception: model's business
+            if cmp_[0] != cmp_[1]:
                 res.fail("add_observations on the same selection gives different results for screens that differ only behind the mask", c,
                          {"A": ca[0], "B": ca[1]}, "identical", signature="C04:direct-interference:" + kind)
-            has_masked = (sel is None and bool(msk_rows)) or (sel is not None and any(sel[i] for i in msk_rows))
             if has_masked:
-                if ca[0] != "err:ValueError":
+                if not isinstance(ca[0], str):
                     res.fail("add_observations accepted data that still contains masked rows", c, ca[0] if isinstance(ca[0], str) else "accepted, n_obs=%d" % ca[0]["n_obs"],
                              "ValueError", signature="C04:accepts-masked:" + kind)
             elif sel is not None:
@@ -1096,6 +1208,13 @@ def run(ctx, res):
                 res.sample({"poison": poison, "plates": raw["pnames"], "mask": raw["mask"], "obs": [repr(x) for x in raw["obs"]]})
             if len(lines) > 2000:
                 flush(ctx, res, lines, expect_cb)
+        # ---- integer-width boundaries: exactly 127 / 128 / 255 / 256 / 257 observed experiments (128 and 257 in every quick run, all five in thorough)
+        wrng = ctx.subrng("c04-wide")
+        sizes = [127, 128, 255, 256, 257]
+        for j, n_obs in enumerate(sizes if ctx.tier != "quick" else [128, 257]):
+            case = {"raw": gen_wide(wrng, n_obs), "poison": ["nan", "negative", "mixed"][j % 3], "seed": 900000 + n_obs, "ncs": [1, 2]}
+            one_pair(ctx, res, env, case, lines, expect_cb, heavy=True, cli=(j == 0))
+            res.count("class.int-width.observed-rows-%d" % n_obs)
         arity_stream(ctx, res, lines, expect_cb)
         flush(ctx, res, lines, expect_cb)
         flush_pipe(ctx, res)
